@@ -143,9 +143,11 @@ def ob_protected_lookup(ctx: Ctx) -> Outcome:
             problems.append("_is_protected is used before the sort (or never)")
         if len(rebinds) != 1 or top_index(rebinds[0]) >= ks:
             problems.append("protected is rebound")
-    filt = [n for n in ast.walk(fn) if isinstance(n, ast.If) and ast.unparse(n.test) == "not _is_protected(match.start())"]
+    # the one use is `not _is_protected(<match>.start())` as the test of an `if` statement or of a comprehension filter
+    tests = [n.test for n in ast.walk(fn) if isinstance(n, ast.If)] + [c for n in ast.walk(fn) if isinstance(n, ast.comprehension) for c in n.ifs]
+    filt = [t for t in tests if isinstance(t, ast.UnaryOp) and isinstance(t.op, ast.Not) and isinstance(t.operand, ast.Call) and t.operand in uses and len(t.operand.args) == 1 and isinstance(t.operand.args[0], ast.Call) and isinstance(t.operand.args[0].func, ast.Attribute) and t.operand.args[0].func.attr == "start" and not t.operand.args[0].args]
     if len(filt) != 1 or len(uses) != 1:
-        problems.append("matches are not filtered by `not _is_protected(match.start())` exactly once")
+        problems.append("matches are not filtered by `not _is_protected(<match>.start())` exactly once")
     if problems:
         return shape_verdict("ast-frame", problems, probe_brace_repair, 1, rp)
     out = contract_outcome(RC.IS_PROTECTED, "contracts.receipts:IS_PROTECTED")
